@@ -5,7 +5,8 @@ from vlib.core import Case, BUILD
 ID = "C14"
 LEAN_MODULE = "Ctrmml.Properties.C14"
 THEOREMS = ["C14_inv_histories_partial", "C14_content_stable", "C14_fresh_disjoint", "C14_bank_rule", "C14_dedupe",
-            "C14_dedupe_complete", "C14_header_roundtrip", "C14_wav_sample_conversion_partial", "C14_offset_window_counterexample"]
+            "C14_dedupe_complete", "C14_header_roundtrip", "C14_reader_total", "C14_add_total", "C14_wav_decode",
+            "C14_tag_window_partial", "C14_offset_window_counterexample"]
 LEVEL = "proof"
 STREAM = "wave.ops"
 CHUNK = 40
@@ -21,8 +22,9 @@ EXPLANATION = ("theorems over Model/Wave + Spec/Alloc (all histories of admissib
                "regions and gaps, bank rule, stored-once, content stability) is applied to the implementation's answers")
 ASSUMPTIONS = ["banks and sample data below 1 GiB (int/uint32_t arithmetic of wave.cpp does not wrap)",
                "one include path (the default \"\")",
-               "WAV files of the property's quantifier: canonical fmt+data, 8/16 bit, 1-2 channels; the reader's behaviour on other files "
-               "(unsupported bit depths, truncated files, smpl loops beyond the data) is modelled but not part of this property",
+               "files shorter than 2^32-1 bytes (the reader keeps the file size in a uint32_t)",
+               "wav_decode covers files made of fmt, data, an optional smpl chunk without loop records and arbitrary other chunks; "
+               "smpl loops (which shorten the sample to the loop end) are modelled and diffed but not part of the decode theorem",
                "partial: additions whose data is placed fresh with a non-zero start offset are excluded (known finding D11)"]
 TRUSTED = ["Spec/Alloc.lean (windows, tiling, bank rule, PCM conversion and canonical WAV layout)"]
 
@@ -430,12 +432,14 @@ def shrink(req):
                 yield head.strip() + " | " + " | ".join(ops[:i] + [" ".join(t[:j] + t[j + 1:])] + ops[i + 1:])
 
 
-TECHNIQUE = "Lean 4 proof (allocator invariant by induction over addition histories) + differential correspondence model<->wave.cpp"
+TECHNIQUE = "Lean 4 proof (allocator invariant by induction over addition histories; reader totality and decode by induction over chunks/frames) + differential correspondence model<->wave.cpp"
 LEVEL_TEXT = ("Machine-checked theorems over a Lean model of wave.cpp: an invariant (every window inside one freshly allocated region and inside the "
               "used area, window bytes = requested bytes, fresh regions and gaps tile the used area exactly and sum to it, bank rule, headers "
               "never change) holds after every history of admissible additions; later additions never change an existing window; byte-identical "
               "data is found again and adds nothing; failed additions leave the bank unchanged; the reader decodes every canonical 8/16-bit "
-              "mono/stereo file to the 8-bit unsigned conversion of channel 0; headers round-trip. Partial: additions placed fresh with a "
+              "mono/stereo WAV file (fmt, data, optional smpl, any other chunks) to the 8-bit unsigned conversion of channel 0 (proved for all "
+              "recordings); the reader and add_sample(Tag) are total on every byte string (no out-of-bounds read, no unbounded loop); "
+              "headers round-trip. Partial: additions placed fresh with a "
               "non-zero start offset are excluded (D11, counterexample theorem + known finding). Model tied to the code by regenerated "
               "constants and by diffing model and wave.cpp on generated histories.")
 LEVEL_NOTE = ("Trusted: Lean kernel (axioms propext, Classical.choice, Quot.sound at most), the hand-written model Model/Wave.lean (agreement with "
